@@ -84,7 +84,7 @@ def main(tier, seed, pid):
     drv = driver("drv_lazy")
     wdir = os.path.join(bdir, "verif-work", "%s-%d" % (pid.lower(), os.getpid()))
     os.makedirs(wdir, exist_ok=True)
-    n = 40 if tier == "quick" else 4000
+    n = 160 if tier == "quick" else 4000
     evals = 0
     nontrivial = 0
     oracle_fail = 0
